@@ -1146,3 +1146,44 @@ def optional_groups_rule(chk: Check, rid: str, relpaths: Iterable[str],
                     "numeric conversion unguarded")
     if n < floor:
         raise AnalysisError("functions with constant patterns: {}".format(n))
+
+
+def generator_calls_consumed_rule(chk: Check, rid: str,
+                                  relpaths: Iterable[str], floor: int) -> None:
+    """Calling a generator function only *creates* the generator; nothing in
+    its body runs until someone iterates it.  As a bare statement
+    (`yield_children(...)` where `yield from yield_children(...)` or a
+    `for ... yield` was meant) the call is a silent no-op: the paths it
+    would have reported are simply missing."""
+    from sa.model import resolve_call, walk_local
+    prog = chk.prog
+    chk.rule(rid, "no call of a generator function of the program stands as "
+             "a bare statement (its result discarded)", floor=floor)
+    n = 0
+    for rel in relpaths:
+        for fi in prog.funcs_in(rel):
+            n += 1
+            bad = []
+            for st in walk_local(fi.node):
+                if not (isinstance(st, ast.Expr) and
+                        isinstance(st.value, ast.Call)):
+                    continue
+                try:
+                    cands = resolve_call(prog, fi, st.value)
+                except Exception:  # pylint: disable=broad-except
+                    cands = []
+                if cands and all(any(isinstance(y, (ast.Yield, ast.YieldFrom))
+                                     for y in walk_local(c.node))
+                                 for c in cands):
+                    bad.append(st)
+            if bad:
+                chk.fail(rid, fi, bad[0], "{}: `{}`".format(
+                    fi.short, src(bad[0].value)[:50]),
+                    "the generator is created and dropped: none of its "
+                    "code runs, so whatever it was to yield (the leaf "
+                    "paths of an expanded match) never appears")
+            else:
+                chk.ok(rid, fi, fi.node, fi.short, "every generator call is "
+                       "iterated", False)
+    if n < floor:
+        raise AnalysisError("functions examined: {}".format(n))
